@@ -9,6 +9,7 @@ import (
 	"go/constant"
 	"go/token"
 	"go/types"
+	"os"
 	"sort"
 	"strings"
 
@@ -200,6 +201,16 @@ func confirmReach(start Loc, target func(ssa.Instruction) bool, stop func(ssa.In
 	}, 300000, func(path []ssa.Instruction, end pathEnd) {
 		if end == endTerminal && len(path) > 0 && target != nil && target(path[len(path)-1]) {
 			found = true
+			if os.Getenv("XDEBUG") != "" && theWorld != nil {
+				for i, in := range path {
+					if _, isIf := in.(*ssa.If); isIf {
+						fmt.Fprintf(os.Stderr, "  confirmReach path[%d] %s: %s\n", i, theWorld.ipos(in), in.String())
+					}
+					if c, ok := in.(*ssa.Call); ok {
+						fmt.Fprintf(os.Stderr, "  confirmReach path[%d] call %s\n", i, c.String())
+					}
+				}
+			}
 		}
 	})
 	return found || err != nil
@@ -1497,11 +1508,16 @@ func walkPathsP(start Loc, terminal func(ssa.Instruction) bool, edgeOK func(b *s
 			case *ssa.Call:
 				callee := x.Call.StaticCallee()
 				viaValue := false
+				if callee != nil && callee.Parent() != nil && inlineOK != nil && theWorld != nil && theWorld.inModule(callee) {
+					viaValue = true // a function literal called where it is defined
+				}
 				if callee == nil && !x.Call.IsInvoke() && inlineOK != nil && theWorld != nil {
 					// a call through a function value that this path determines (a function-typed parameter of a
 					// walked-through helper bound to a function literal or a named function by the caller)
-					if fv, _ := pc.res(x.Call.Value, fr); fv != x.Call.Value {
-						if f := funcOfValue(fv); f != nil && f.Blocks != nil && theWorld.inModule(f) && !theWorld.TestSupport[f] && len(f.FreeVars) == 0 {
+					fv, _ := pc.res(x.Call.Value, fr)
+					if _, isLit := fv.(*ssa.MakeClosure); isLit || fv != x.Call.Value {
+						// (captured variables of a function literal stay symbolic: they are not resolved through frames)
+						if f := funcOfValue(fv); f != nil && f.Blocks != nil && theWorld.inModule(f) && !theWorld.TestSupport[f] {
 							callee, viaValue = f, true
 						}
 					}
@@ -1558,6 +1574,9 @@ func phiFeasible(b *ssa.BasicBlock, succ int, path []ssa.Instruction) bool {
 	// a condition that this path has already fixed: the result of a walked-through helper, a phi of constants
 	{
 		r := valueOnPath(rvI(c, len(path)-1), path)
+		if os.Getenv("XDEBUG") == "2" && theWorld != nil {
+			fmt.Fprintf(os.Stderr, "  phiFeasible %s cond %s -> %s (%T)\n", theWorld.ipos(path[len(path)-1]), c.Name(), r.String(), r)
+		}
 		if bv, isC := boolConst(r); isC {
 			return bv == truth
 		}
